@@ -128,6 +128,9 @@ Seeds ==
                      r \in SeqsLen({65, 45}, 5), o \in {<<67, 65, 67, 65, 67>>, <<67, 45, 65, 45, 82>>}, o2 \in {<<45, 45, 45, 45, 45>>, <<78, 65, 71, 71, 65>>}}
             \cup {<<NewArgs("align", AMINOACIDS, 0, [r \in 1..3 |-> Row(<<114, ZERO + r>>, [c \in 1..Pow(7, 3) |->
                        <<83, 84, 65, 67, 115, 45, 75>>[(((c - 1) \div Pow(7, 3 - r)) % 7) + 1]])]), prof>>}     \* S T A C s - K: strong / weak groups
+            \* proteins with the wildcard X next to residues and gaps, in every row (the reference of the mutation counts too)
+            \cup {<<NewArgs("align", AMINOACIDS, 0, [r \in 1..2 |-> Row(<<114, ZERO + r>>, [c \in 1..Pow(4, 2) |->
+                       <<65, 88, 45, 75>>[(((c - 1) \div Pow(4, 2 - r)) % 4) + 1]])]), prof>>}
             \cup {<<NewArgs("align", NUCLEOTIDS, 0, <<Row(nA, <<65, 45, 67>>), Row(nB, <<71, 45, 67>>), Row(nC, <<71, 65, 45>>)>>), prof>>,
                    <<NewArgs("align", NUCLEOTIDS, 0, <<Row(nA, <<>>)>>), prof>>}
             \* every column of height 3 over characters that are not letters (stop codon, '?', a digit) next to letters and the
@@ -238,6 +241,7 @@ InstC05(h) ==
    ELSE {})
   \cup (IF IsAlign(h[1]) /\ Len(h[1].rows) = 2
         THEN {Inst("TranslateByReference", 1, [ref |-> n, frame |-> f, code |-> c]) : n \in {nA, nB, nZ, <<>>}, f \in {0, 1, 2}, c \in {0, 1}}
+             \cup {Inst("TranslateByReference", 1, [ref |-> nA, frame |-> -1, code |-> 0])}      \* "all three frames" does not exist here: an error
         ELSE {})
   \cup (IF Len(h) >= 2 /\ IsAlign(h[2]) /\ h[2].al = AMINOACIDS THEN {Inst("CodonAlign", 2, [nt |-> 1, code |-> 0])} ELSE {})
 InstC12(h) ==
